@@ -39,6 +39,29 @@ Theorem C06_remove_encryption_boxes : forall ch,
 Proof. exact reb_general. Qed.
 Print Assumptions C06_remove_encryption_boxes.
 
+(* "every box that is not protection signalling ... present and unchanged": is_protection_box looks at the grouping
+   type of sample group boxes (sbgp / sgpd are protection signalling only for seig).  Whatever the traf holds, the
+   boxes that are not protection signalling come out of RemoveEncryptionBoxes in the same order, unchanged (same
+   kind, size, identity), nothing is invented, and the byte count returned is exactly what the traf lost *)
+Theorem C06_nonprotection_boxes_kept : forall ch,
+  filter (fun b => negb (is_protection_box (tk b))) (fst (remove_encryption_boxes ch))
+  = filter (fun b => negb (is_protection_box (tk b))) ch /\
+  (forall b, In b ch -> is_protection_box (tk b) = false -> In b (fst (remove_encryption_boxes ch))) /\
+  (forall b, In b (fst (remove_encryption_boxes ch)) -> In b ch) /\
+  sumN (map tsize (fst (remove_encryption_boxes ch))) + snd (remove_encryption_boxes ch) = sumN (map tsize ch).
+Proof. exact reb_keeps_nonprotection. Qed.
+Print Assumptions C06_nonprotection_boxes_kept.
+
+(* and a RemoveEncryptionBoxes that removes every sbgp / sgpd without looking at the grouping type (proposed as "the
+   sample group boxes of an encrypted traf carry the seig groups") violates it: roll groups of the clear traf vanish *)
+Theorem C06_drop_all_groups_refuted :
+  let ch := [mkT TOther 16 1; mkT TTrun 32 2; mkT (TSbgp cc_roll) 28 3; mkT (TSgpd cc_roll) 26 4] in
+  filter (fun b => negb (is_protection_box (tk b))) (fst (remove_encryption_boxes_allgroups ch))
+  <> filter (fun b => negb (is_protection_box (tk b))) ch /\
+  fst (remove_encryption_boxes ch) = ch.
+Proof. exact drop_all_groups_refuted. Qed.
+Print Assumptions C06_drop_all_groups_refuted.
+
 (* structure round trip for every single-traf fragment with arbitrary opaque boxes in moof and traf (no guard
    on uuid boxes any more): EncryptFragment, encode + decode at any position, DecryptFragment gives the encoded +
    decoded clear fragment: same children in the same order, the clear data offset and mdat position *)
@@ -91,14 +114,15 @@ Theorem C06_decrypt_preserves_offsets : forall f g,
 Proof. exact decrypt_struct_general. Qed.
 Print Assumptions C06_decrypt_preserves_offsets.
 
-(* init segment: DecryptInit (InitProtect init) = init for every single-track init whose sample entry has no sinf
-   of its own and whose moov has no pssh: the sample entry type is restored from frma (avc1/avc3/hvc1/hev1, any
-   audio type), the sinf and the added pssh boxes are gone, every other child of the sample entry and of moov
-   is kept in place, and the decrypt side receives the scheme and the tenc that InitProtect returned *)
+(* init segment: DecryptInit (InitProtect init) = init for every single-track init whose moov has no pssh: the
+   sample entry type is restored from frma (avc1/avc3/hvc1/hev1, any audio type), the sinf InitProtect added and the
+   added pssh boxes are gone, every other child of the sample entry - a sinf the entry owned before protection
+   included: RemoveEncryption (text after fix bb3f974) removes the sinf it returns, the last one - and of moov is
+   kept in place, and the decrypt side receives the scheme and the tenc that InitProtect returned.  No guard on the
+   entry's children any more *)
 Theorem C06_init_roundtrip : forall m iv sch kid psshs ps_ok m' t,
   init_protect m iv sch kid psshs ps_ok = Ok (m', t) ->
   no_pssh m = true ->
-  (forall se, traks_of m = [[se]] -> no_sinf (se_children se) = true) ->
   decrypt_init m' = Ok (m, [Some (sch, Some t)]).
 Proof. exact init_roundtrip. Qed.
 Print Assumptions C06_init_roundtrip.
@@ -288,10 +312,9 @@ Print Assumptions C06_file_roundtrip_cenc.
    children, whatever those are: avcC/hvcC/esds, btrt, pasp, unknown boxes), with pssh boxes appended to the moov:
    DecryptInit restores every entry (original 4cc from frma, sinf gone, every other child in place and in order),
    every track, every other moov child, removes the pssh boxes and returns one (scheme, tenc) per entry.
-   Guard: no entry has a sinf of its own (ex_init_own_sinf: RemoveEncryption removes the FIRST sinf child but reads
-   frma from the LAST one) *)
+   No guard on the entries' children: an entry may own sinf boxes of its own (they stay) *)
 Theorem C06_init_restore_all : forall m iv sch kid ps_ok psshs m' ts,
-  entries_no_sinf m = true -> no_pssh m = true ->
+  no_pssh m = true ->
   protect_traks m iv sch kid ps_ok = Ok (m', ts) ->
   decrypt_init (m' ++ map MVPssh psshs) = Ok (m, infos_of sch ts).
 Proof. exact init_restore_all. Qed.
@@ -307,7 +330,8 @@ Proof. split; reflexivity. Qed.
 
 (* a clear moof with extra boxes satisfying the hypotheses of the round trip *)
 Example ex_clean :
-  let cs := [MOther 16 1; MOther 14 9; MTraf [mkT TOther 16 2; mkT TOther 20 3; mkT TTrun 60 4; mkT TUuidOther 44 5; mkT TOther 13 6]; MOther 11 7] in
+  let cs := [MOther 16 1; MOther 14 9; MTraf [mkT TOther 16 2; mkT TOther 20 3; mkT TTrun 60 4; mkT TUuidOther 44 5; mkT TOther 13 6;
+                                             mkT (TSbgp cc_roll) 28 8; mkT (TSgpd cc_roll) 26 10]; MOther 11 7] in
   clean_moof cs = true /\ nr_trafs cs = 1%nat.
 Proof. split; reflexivity. Qed.
 
@@ -331,8 +355,8 @@ Proof.
   rewrite firstn_app, Hb, Nat.sub_diag, firstn_all2 by lia. cbn. apply app_nil_r.
 Qed.
 
-(* an init satisfying the hypotheses of C06_init_roundtrip, and why the sinf guard is there: an entry that
-   already owns a sinf loses that one (RemoveEncryption removes the FIRST sinf child) *)
+(* an init satisfying the hypotheses of C06_init_roundtrip; ex_init_own_sinf: an entry that already owns a sinf
+   keeps it (the pinned RemoveEncryption removed the FIRST sinf child: fixed in /repo, commit bb3f974) *)
 Example ex_init :
   let m := [MVOther 1; MVTrak [mkSE SVisual cc_avc1 [SEOther 2; SEOther 3]]; MVOther 4] in
   no_pssh m = true /\
@@ -346,10 +370,15 @@ Example ex_init_own_sinf :
   let own := SESinf (mkSinf 1 (Some cc_cenc) None) in
   let m := [MVTrak [mkSE SAudio 77 [own; SEOther 2]]] in
   match init_protect m (repeat 7 16) cc_cenc 1 [] true with
-  | Ok (m', t) => exists s, decrypt_init m' = Ok ([MVTrak [mkSE SAudio 77 [SEOther 2; SESinf s]]], [Some (cc_cenc, Some t)])
+  | Ok (m', t) => decrypt_init m' = Ok (m, [Some (cc_cenc, Some t)]) /\
+                  (* the pinned RemoveEncryption removed the entry's own sinf and kept the added one *)
+                  match m' with
+                  | [MVTrak [se']] => exists s, remove_encryption_pinned se' = Ok (mkSE SAudio 77 [SEOther 2; SESinf s], s)
+                  | _ => False
+                  end
   | _ => False
   end.
-Proof. vm_compute. eexists. reflexivity. Qed.
+Proof. vm_compute. split; [reflexivity|]. eexists. reflexivity. Qed.
 
 (* the hypotheses of the fragment round trips are satisfiable: an AVC cenc fragment with a tfxd-like uuid box *)
 Example ex_frag_roundtrip :
@@ -401,7 +430,7 @@ Proof. split; [repeat constructor|]. vm_compute. split; reflexivity. Qed.
 Example ex_init_restore_all :
   let m := [MVOther 1; MVTrak [mkSE SVisual cc_avc1 [SEOther 2; SEOther 3]; mkSE SVisual cc_avc3 [SEOther 4]];
             MVTrak [mkSE SAudio 1836069985 [SEOther 5; SEOther 6]]; MVOther 7] in
-  entries_no_sinf m = true /\ no_pssh m = true /\
+  no_pssh m = true /\
   match protect_traks m (repeat 7 16) cc_cbcs 1 true with
   | Ok (m', ts) => decrypt_init (m' ++ map MVPssh [1000; 1001]) = Ok (m, infos_of cc_cbcs ts) /\ length (infos_of cc_cbcs ts) = 3%nat
   | _ => False
